@@ -269,6 +269,25 @@ func init() {
 		}
 		return "ok"
 	})
+	// the same check on a slice with SPARE CAPACITY (a prefix of a larger buffer, as bytes.Buffer.Bytes(), io.ReadAll or full[:n] give):
+	// what lies behind len(input) is not input
+	register("cbor.det.cap", func(args []string) (res string) {
+		defer func() {
+			if r := recover(); r != nil {
+				res = "reject"
+			}
+		}()
+		in := ofHex(args[0])
+		back := make([]byte, len(in)+96)
+		copy(back, in)
+		for i := len(in); i < len(back); i++ {
+			back[i] = []byte{0x61, 0x00, 0x01, 0x41, 0x18, 0x60}[i%6]
+		}
+		if err := cbor.Deterministic(back[:len(in)]); err != nil {
+			return "reject"
+		}
+		return "ok"
+	})
 	register("be.enc", func(args []string) string {
 		n, err := strconv.ParseInt(args[0], 10, 64)
 		if err != nil {
